@@ -1590,6 +1590,10 @@ sf_seek	(SNDFILE *sndfile, sf_count_t offset, int whence)
 
 		retval = psf->seek (psf, new_mode, seek_from_start) ;
 
+		/* A seek the codec refused must not overwrite the current position with -1. */
+		if (retval < 0)
+			return retval ;
+
 		switch (new_mode)
 		{	case SFM_READ :
 					psf->read_current = retval ;
